@@ -1,7 +1,7 @@
 (* The finite safety check behind C05: for a backend's precedence tables (Spec/Prec.v) and the
    parenthesis decisions the code makes (tables regenerated from the code, Model/ExprTablesInst.v),
    every (outer operator, inner top-level shape, side) row is either parenthesised or safe to leave
-   bare in the sense of Spec/Pratt.v. *)
+   bare in the sense of Spec/PrattT.v. *)
 Require Import SQV.Model.Str SQV.Model.Escape SQV.Model.Expr SQV.Model.RenderExpr SQV.Model.ExprTablesInst
   SQV.Spec.Prec.
 From Coq Require Import Arith.
